@@ -184,6 +184,19 @@ def run(ctx):
         ctx.hist('random/' + kind)
         one(tuple(float(x) for x in v), tols[:3] if n <= 300 else tols[:1])
     ctx.flush()
+    # ---- round 7 (hx_r7b): ulp-extremum series (gen.ulp_extremum_series / _exhaustive): neighbouring samples that differ in the last bits AT turning
+    # points, on plateaus and at the ends (the largest |value| of an excursion may exceed its neighbours by one ulp only); exact model, exact clauses
+    for label, v in gen.ulp_extremum_exhaustive(max_k=3 if ctx.tier == 'quick' else 5, offsets=(-1, 0, 1) if ctx.tier == 'quick' else (-2, -1, 0, 1, 3)):
+        ctx.hist(label)
+        one(v, tols[:2])
+        if label.endswith('rise-fall') or label.endswith('fall-rise'):       # the same crest in an excursion of the other sign / followed by a zero crossing
+            one(tuple(-x for x in v) + (v[0],), tols[:1])
+    ctx.flush()
+    for i in range(150 if ctx.tier == 'quick' else 3000):
+        kind, v = gen.ulp_extremum_series(rng, gen.log_int(rng, 4, 60 if i % 10 else 400))
+        ctx.hist('ulp-extremum/' + kind)
+        one(tuple(float(x) for x in v), tols[:2] if len(v) <= 100 else tols[:1])
+    ctx.flush()
     # LONG records (thousands of turning points) in which the series touches zero and turns back, dips to zero between excursions of
     # the same sign, or sits on zero for a while: a vectorised path for long inputs must group exactly like the loop
     for i in range(3 if ctx.tier == 'quick' else 12):
